@@ -319,6 +319,8 @@ def attribute(env, node):
         raise Unsupported(node, 'attribute %s of the profile object is not in the signature file' % node.attr)
     if isinstance(node.value, ast.Name) and node.value.id in env.structs:
         key = env.mod.struct_field(env.structs[node.value.id], node.value.id, node.attr, node)
+        if key not in env.vars:
+            raise Unsupported(node, 'field %s is read before it is assigned' % key)
         return env.vars[key]
     raise Unsupported(node, 'attribute access .%s is not covered by the signature file' % node.attr)
 
